@@ -39,7 +39,7 @@ func init() {
 	add("C10", Sub{Name: "C10/enum", Mode: "free", QuickS: 150, ThorS: 1500})
 	add("C16", Sub{Name: "C16/enum", Mode: "free", QuickS: 150, ThorS: 1200})
 	add("C11", Sub{Name: "C11/sched", Mode: "controlled", QuickS: 100, ThorS: 1500}, Sub{Name: "C11/enum", Mode: "free", QuickS: 120, ThorS: 1200})
-	add("C18", Sub{Name: "C18/enum", Mode: "free", QuickS: 150, ThorS: 1500})
+	add("C18", Sub{Name: "C18/enum", Mode: "free", QuickS: 150, ThorS: 1500}, Sub{Name: "C18/sched", Mode: "controlled", QuickS: 80, ThorS: 900})
 	add("C19", Sub{Name: "C19/enum", Mode: "free", QuickS: 150, ThorS: 1500})
 	add("C20", Sub{Name: "C20/hist", Mode: "free", QuickS: 150, ThorS: 1500})
 }
